@@ -9,6 +9,7 @@ C20 driver.
 -/
 import LndModel.Prelude.Lines
 import LndModel.C20.Model
+import LndModel.C20.CacheModel
 
 open LndModel LndModel.Lines LndModel.C20
 
@@ -23,6 +24,8 @@ structure Dump where
   pols : List ((Scid × Nat) × Policy) := []
   nodes : List (Key × NodeInfo) := []
   zombies : List (Scid × (Key × Key)) := []
+  hs : List (Scid × Cache.Ent) := []     -- `H=`: the store's cache-backed HasV1ChannelEdge answers
+  hasH : Bool := false
   bad : Bool := false
 
 /-- what the harness says about one submitted message (real crypto facts). -/
@@ -67,6 +70,14 @@ structure St where
   zombieAdds : Nat := 0
   zombieLives : Nat := 0
   prunes : Nat := 0
+  strict : Bool := false
+  former : List (Scid × ChanInfo) := []   -- every channel that was in the implementation's graph
+  concOps : Nat := 0
+  concBarriers : Nat := 0
+  cacheAnswers : Nat := 0
+  zombiePrunes : Nat := 0
+  zombiePruned : Nat := 0
+  directAdds : Nat := 0
   resKinds : List (String × Nat) := []
 
 def mismatch (s : St) (detail : String) : IO St := do
@@ -115,6 +126,15 @@ def parseDump (ws : List String) : Dump := Id.run do
     match t.splitOn ":" with
     | [sc, k1, k2] => d := { d with zombies := d.zombies ++ [(natD sc, (natD k1, natD k2))] }
     | _ => d := { d with bad := true }
+  match kv? ws "H" with
+  | none => pure ()
+  | some hstr =>
+    d := { d with hasH := true }
+    for t in splitList hstr "|" do
+      match t.splitOn ":" with
+      | [sc, ex, zo, t0, t1] =>
+        d := { d with hs := d.hs ++ [(natD sc, ⟨ex == "1", zo == "1", natD t0, natD t1⟩)] }
+      | _ => d := { d with bad := true }
   return d
 
 def parseSig (digs : List (Nat × Digest)) (t : String) : Sig :=
@@ -134,7 +154,7 @@ def sv (ws : List String) (k : String) : String := (kv? ws k).getD "-"
 /-- builds the message without signatures (to obtain its digest first). -/
 def parseMsg (ws : List String) (digs : List (Nat × Digest)) : Option Msg :=
   match ws.head? with
-  | some "ca" =>
+  | some "ca" | some "ae" =>
     some (.ca { chain := n ws "chain", scid := n ws "scid", n1 := n ws "n1", n2 := n ws "n2",
                 b1 := n ws "b1", b2 := n ws "b2", feat := blob (sv ws "feat"),
                 extra := blob (sv ws "extra"),
@@ -239,13 +259,42 @@ def directJustifies (opKind : String) (e : Seen) (c : Scid) (d : Nat) (ci : Chan
        (ci.cap * 1000 == 0 || decide (u.max ≤ ci.cap * 1000))))
   | _ => false
 
+/-- `Builder.AddEdge` (trusted local caller): the stored record must be exactly what was handed in,
+    and (the harness builds the edge like the gossiper does) backed by the programmed funding output. -/
+def aeJustifies (s : St) (e : Seen) (c : Scid) (ci : ChanInfo) : Bool :=
+  match e.msg with
+  | .ca a =>
+    a.scid == c && a.n1 == ci.n1 && a.n2 == ci.n2 && a.b1 == ci.b1 && a.b2 == ci.b2 &&
+    a.feat == ci.feat && a.extra == ci.extra && chainOkFor s a ci.cap
+  | _ => false
+
+/-- the durable entry of `c` in a graph: what `HasV1ChannelEdge` computes from the database -/
+def entOf (chans : List (Scid × ChanInfo)) (pols : List ((Scid × Nat) × Policy))
+    (zombies : List (Scid × (Key × Key))) (c : Scid) : Cache.Ent :=
+  match lookup c chans with
+  | some _ =>
+    ⟨true, false, ((lookup (c, 0) pols).map (·.ts)).getD 0, ((lookup (c, 1) pols).map (·.ts)).getD 0⟩
+  | none => ⟨false, (lookup c zombies).isSome, 0, 0⟩
+
+def b01 (b : Bool) : String := if b then "1" else "0"
+
+/-- what the lookup kinds answer on a (cached or durable) entry -/
+def ansStr (cfg : Cfg) (now : Nat) (rd : String) (rts rdir : Nat) (e : Cache.Ent) : String :=
+  if rd == "has" then s!"{b01 e.ex}:{b01 (!e.ex && e.zo)}"
+  else if rd == "known" then b01 (e.ex || e.zo)
+  else if !e.ex && e.zo then b01 (decide (now > (rts + cfg.expiry) * nsPerSec))
+  else if !e.ex then "0"
+  else b01 (decide (rts ≤ e.t rdir))
+
 def isEndpoint (chans : List (Scid × ChanInfo)) (k : Key) : Bool :=
   chans.any (fun c => c.2.n1 == k || c.2.n2 == k)
 
 def runMonitor (s : St) (opKind : String) (cur : Option Seen) (now : Nat) (relay : List String)
-    (wf : List String) (wfs : List String) (after : Dump) : IO St := do
+    (wf : List String) (wfs : List String) (after : Dump) (rm : List Scid := []) : IO St := do
   let before := s.prev
-  let pruned : Scid := if opKind == "prn" then now else 0   -- `prn` passes its scid in `now`
+  -- maintenance operations (`prn` PruneGraph, `del` DeleteChannelEdges+PruneGraphNodes, `zpr` the
+  -- builder's zombie pruning) may remove the channels listed in `rm` and unconnected nodes
+  let maint := opKind == "prn" || opKind == "del" || opKind == "zpr"
   let mut s := s
   -- candidate messages: the current one, or (for replays) everything submitted before
   let replayOp := opKind == "ca" || opKind == "blk"
@@ -260,13 +309,17 @@ def runMonitor (s : St) (opKind : String) (cur : Option Seen) (now : Nat) (relay
   -- channels
   for (c, ci) in before.chans do
     if lookup c after.chans != some ci then
-      if !(opKind == "prn" && c == pruned && lookup c after.chans == none) then
+      if !(maint && rm.contains c && lookup c after.chans == none) then
         s ← monitor s "chan-changed" s!"channel {c} was removed or modified by a {opKind}"
   for (c, ci) in after.chans do
     if lookup c before.chans == none then
       added := c :: added
       let okProof := lookup c after.proofs == some 1
-      if !(opKind == "ca" || opKind == "blk") || !(caCands.any (fun e => caJustifies s e c ci)) || !okProof then
+      if opKind == "ae" then
+        if !(caCands.any (fun e => aeJustifies s e c ci)) || !okProof then
+          s ← monitor s "chan-changed" s!"Builder.AddEdge stored channel {c} differently from the edge it was given"
+        else s := { s with directAdds := s.directAdds + 1 }
+      else if !(opKind == "ca" || opKind == "blk") || !(caCands.any (fun e => caJustifies s e c ci)) || !okProof then
         s ← monitor s "chan-ann-authentic" s!"channel {c} entered the graph without an authentic announcement and matching unspent 2-of-2 funding output (op={opKind})"
       else s := { s with chanAdds := s.chanAdds + 1 }
       -- the stored channel point must be the scid's own outpoint txid:output_index
@@ -279,7 +332,7 @@ def runMonitor (s : St) (opKind : String) (cur : Option Seen) (now : Nat) (relay
   -- policies
   for (k, p) in before.pols do
     if lookup k after.pols == none then
-      if !(opKind == "prn" && k.1 == pruned) then
+      if !(maint && rm.contains k.1) then
         s ← monitor s "policy-removed" s!"policy {k.1}/{k.2} disappeared"
     else if lookup k after.pols != some p then pure ()
   for (k, p) in after.pols do
@@ -301,7 +354,7 @@ def runMonitor (s : St) (opKind : String) (cur : Option Seen) (now : Nat) (relay
   -- nodes
   for (k, ni) in before.nodes do
     if lookup k after.nodes == none then
-      if !(opKind == "prn" && k != s.cfg.self && !isEndpoint after.chans k) then
+      if !(maint && k != s.cfg.self && !isEndpoint after.chans k) then
         s ← monitor s "node-removed" s!"node {k} disappeared"
     else if lookup k after.nodes != some ni then pure ()
   for (k, ni) in after.nodes do
@@ -337,9 +390,32 @@ def runMonitor (s : St) (opKind : String) (cur : Option Seen) (now : Nat) (relay
       if !ok then
         s ← monitor s "zombie-live-authentic" s!"zombie {c} was resurrected without a fresh update signed by its recorded key"
       else s := { s with zombieLives := s.zombieLives + 1 }
+      -- a channel that was in the graph before it became a zombie: the resurrecting update must be
+      -- signed by the node owning the update's direction of that channel
+      match lookup c s.former with
+      | some ci =>
+        let okOwner := cands.any (fun e => match e.msg with
+          | .cu u => u.scid == c && e.vk.contains (if u.cf % 2 == 0 then ci.n1 else ci.n2)
+          | _ => false)
+        if !okOwner then
+          let by_ := joinOrDash (cands.filterMap (fun e => match e.msg with
+            | .cu u => if u.scid == c then some s!"dir{u.cf % 2}/keys{e.vk}" else none
+            | _ => none))
+          -- explained by `makeZombiePubkeys` returning node1 in the second slot (strict pruning): the
+          -- index holds (blank, node1) and the resurrecting update is a direction-1 update signed by node1
+          let explained := s.strict && ks.1 == 0 && ks.2 == ci.n1 && ci.n1 != ci.n2 &&
+            cands.any (fun e => match e.msg with
+              | .cu u => u.scid == c && u.cf % 2 == 1 && e.vk.contains ci.n1
+              | _ => false)
+          let tag := if explained then " cause=strict-zombie-slot2-holds-node1" else ""
+          s ← monitor s "zombie-live-owner" s!"zombie {c} (formerly node1={ci.n1} node2={ci.n2}) was resurrected by a channel_update that is not signed by the node owning its direction ({by_}) recorded-keys={ks.1},{ks.2}{tag}"
+      | none => pure ()
   for (c, ks) in after.zombies do
     if lookup c before.zombies != some ks then
       if opKind == "zmb" then pure ()
+      else if (opKind == "del" || opKind == "zpr") && rm.contains c && lookup c after.chans == none &&
+          (lookup c before.chans).isSome then
+        s := { s with zombiePruned := s.zombiePruned + 1 }
       else
         let ok := ks == (0, 0) && (opKind == "ca" || opKind == "blk") && !s.cfg.assumeValid &&
           lookup c after.chans == none &&
@@ -388,6 +464,13 @@ def runMonitor (s : St) (opKind : String) (cur : Option Seen) (now : Nat) (relay
       s ← monitor s "relay-wire-faithful" s!"channel_update id={r}: relayed bytes = received bytes minus the unknown extra-data TLVs (signature no longer covers them)"
     else
       s ← monitor s "relay-bytes-altered" s!"message id={r} is relayed with bytes different from the received (signed) ones"
+  -- after quiescence the store's cache-backed answers must be the durable ones
+  for (c, e) in after.hs do
+    let durable := entOf after.chans after.pols after.zombies c
+    let durable := if durable.ex then durable else { durable with t0 := 0, t1 := 0 }
+    s := { s with cacheAnswers := s.cacheAnswers + 1 }
+    if e != durable then
+      s ← monitor s "cache-coherent-after-quiescence" s!"channel {c}: the store answers exists={e.ex} zombie={e.zo} ts0={e.t0} ts1={e.t1} but the durable graph has exists={durable.ex} zombie={durable.zo} ts0={durable.t0} ts1={durable.t1}"
   -- bookkeeping: an invalid message that changed nothing
   match cur with
   | some e =>
@@ -423,6 +506,65 @@ def replayStr (seen : List Seen) (l : List (Msg × Res)) (skipOk : Bool) : Strin
   let l := if skipOk then l.filter (fun _ => true) else l
   joinOrDash (sortStr (l.map (fun mr => s!"{idOf seen mr.1}:{resName mr.2}")))
 
+def remember (s : St) (after : Dump) : St :=
+  { s with prev := after,
+           former := after.chans.foldl (fun f cc => upsert cc.1 cc.2 f) s.former }
+
+/-- channels the builder's zombie pruning may remove, recomputed from the implementation's own
+    previous dump: not ours, and some direction has no policy or one older than the prune expiry. -/
+def zprRemovable (s : St) (now : Nat) : List Scid :=
+  (s.prev.chans.filter (fun cc =>
+    cc.2.n1 != s.cfg.self && cc.2.n2 != s.cfg.self &&
+    [0, 1].any (fun d => match lookup (cc.1, d) s.prev.pols with
+      | none => true
+      | some p => decide (p.ts * nsPerSec + s.cfg.expiry * nsPerSec ≤ now)))).map (·.1)
+
+/-- (X) for a graph write that was overlapped with a cache-miss lookup: the code's lock discipline
+    as atomic steps of the cache model — the attempted operation cannot finish inside the other one's
+    critical section, so the order is "armed operation first". -/
+def concCheck (s : St) (ws : List String) (kind : String) (gBefore gAfter : Graph) (now : Nat)
+    (after : Dump) : IO St := do
+  let rd := sv ws "rd"
+  if rd == "-" then return s
+  let mut s := { s with concOps := s.concOps + 1 }
+  let c := n ws "rscid"
+  let sched := sv ws "sched"
+  let barrier := sched != "seq-rw" && sched != "seq-wr"
+  let wFirst := sched == "seq-wr" || sched.startsWith "w."
+  if barrier then
+    if n ws "fired" != 1 then
+      s ← mismatch s s!"conc {kind}/{rd}/{sched}: the armed barrier was not reached (cache entry not cold?)"
+    else s := { s with concBarriers := s.concBarriers + 1 }
+    if n ws "inside" != 0 then
+      s ← mismatch s s!"conc {kind}/{rd}/{sched}: the attempted operation finished inside the other one's critical section (model: blocked on cacheMu)"
+  let e0 := entOf gBefore.chans gBefore.pols gBefore.zombies c
+  let st0 := Cache.init (fun k => if k == c then e0 else ⟨false, false, 0, 0⟩)
+  let wSteps : List Cache.Step :=
+    if kind == "ue" then [.updBegin 1 c (n ws "cf" % 2) (n ws "ts"), .lookup 1 c, .updCommit 1]
+    else if kind == "ae" then
+      [.lookup 1 c] ++ (if e0.ex || e0.zo || sv ws "res" == "e_edge" then [] else [.addEdge c])
+    else if kind == "del" then [.delEdge c true]
+    else if kind == "zmb" then [.markZombie c]
+    else []
+  let rSteps : List Cache.Step := [.lookup 0 c]
+  let fin := Cache.run st0 (if wFirst then wSteps ++ rSteps else rSteps ++ wSteps)
+  let rts := n ws "rts"
+  let rdir := n ws "rdir"
+  let mAns := match (fin.thr 0).ans with
+    | some (_, e) => ansStr s.cfg now rd rts rdir e
+    | none => "?"
+  if mAns != sv ws "ans" then
+    s ← mismatch s s!"conc {kind}/{rd}/{sched}: lookup answer model={mAns} impl={sv ws "ans"}"
+  let eAfter := entOf gAfter.chans gAfter.pols gAfter.zombies c
+  if n ws "scid" == c && fin.disk c != eAfter then
+    s ← mismatch s s!"conc {kind}: cache model and graph model disagree on the durable entry of {c}"
+  -- (S) linearizability of the lookup: its answer is the durable one before or after the write
+  let dB := entOf s.prev.chans s.prev.pols s.prev.zombies c
+  let dA := entOf after.chans after.pols after.zombies c
+  if sv ws "ans" != ansStr s.cfg now rd rts rdir dB && sv ws "ans" != ansStr s.cfg now rd rts rdir dA then
+    s ← monitor s "lookup-answer-durable" s!"{rd} lookup of {c} overlapped with a {kind} answered {sv ws "ans"}, which is neither the durable answer before nor after the write"
+  return s
+
 def step (s : St) (line : String) : IO St := do
   let s := { s with lines := s.lines + 1 }
   let ws := words line
@@ -441,7 +583,7 @@ def step (s : St) (line : String) : IO St := do
     let init : State := { g := { nodes := [(self, ⟨0, none⟩)] }, height := n rest "height" }
     let s := { s with cfg := cfg, caseId := id, kind := sv rest "kind", ms := init,
                       prev := { nodes := [(self, ⟨0, none⟩)] }, seen := [], chainTab := [],
-                      cases := s.cases + 1 }
+                      cases := s.cases + 1, strict := n rest "strict" == 1, former := [] }
     if !(s.sampled.contains s.kind) && s.sampled.length < 6 then
       return { s with sampled := s.kind :: s.sampled }
     return s
@@ -467,10 +609,51 @@ def step (s : St) (line : String) : IO St := do
     let scid := n rest "scid"
     let after := parseDump ws
     let ms := { s.ms with g := { s.ms.g with zombies := upsert scid (n rest "k1", n rest "k2") s.ms.g.zombies } }
+    let gBefore := s.ms.g
     let mut s := { s with ms := ms, ops := s.ops + 1 }
+    if sv ws "res" != "ok" then s ← mismatch s s!"zmb: impl={sv ws "res"}"
     s ← compareGraph s ms.g after
+    s ← concCheck s ws "zmb" gBefore ms.g (n rest "now") after
     s ← runMonitor s "zmb" none 0 [] [] [] after
-    return { s with prev := after }
+    return remember s after
+  | "cool" :: _ =>
+    let after := parseDump ws
+    let mut s := s
+    s ← compareGraph s s.ms.g after
+    s ← runMonitor s "cool" none 0 [] [] [] after
+    return remember s after
+  | "coh" :: _ =>
+    let after := parseDump ws
+    let mut s := s
+    s ← compareGraph s s.ms.g after
+    if !after.hasH then s ← mismatch s "coh line without cache answers"
+    s ← runMonitor s "coh" none 0 [] [] [] after
+    return remember s after
+  | "del" :: rest =>
+    let scid := n rest "scid"
+    let after := parseDump ws
+    let gBefore := s.ms.g
+    let exists_ := (lookup scid gBefore.chans).isSome
+    let strict := n rest "strict" == 1
+    let g := if exists_ then (gBefore.delZombie strict scid).pruneNodes s.cfg.self else gBefore
+    let mut s := { s with ms := { s.ms with g := g }, ops := s.ops + 1, prunes := s.prunes + 1 }
+    let mres := if exists_ then "ok" else "err"
+    if sv ws "res" != mres then s ← mismatch s s!"del: result model={mres} impl={sv ws "res"}"
+    if sv ws "relay" != "-" then s ← mismatch s s!"del relayed {sv ws "relay"}"
+    s ← compareGraph s g after
+    s ← concCheck s ws "del" gBefore g (n rest "now") after
+    s ← runMonitor s "del" none 0 [] [] [] after [scid]
+    return remember s after
+  | "zpr" :: rest =>
+    let now := n rest "now"
+    let after := parseDump ws
+    let g := zombiePrune s.cfg s.strict now s.ms.g
+    let rm := zprRemovable s now
+    let mut s := { s with ms := { s.ms with g := g }, ops := s.ops + 1, zombiePrunes := s.zombiePrunes + 1 }
+    if sv ws "relay" != "-" then s ← mismatch s s!"zpr relayed {sv ws "relay"}"
+    s ← compareGraph s g after
+    s ← runMonitor s "zpr" none now [] [] [] after rm
+    return remember s after
   | "prn" :: rest =>
     let scid := n rest "scid"
     let after := parseDump ws
@@ -479,8 +662,8 @@ def step (s : St) (line : String) : IO St := do
     if sv ws "res" != "ok" then s ← mismatch s s!"prn: impl={sv ws "res"}"
     if sv ws "relay" != "-" then s ← mismatch s s!"prn relayed {sv ws "relay"}"
     s ← compareGraph s ms.g after
-    s ← runMonitor s "prn" none scid [] [] [] after
-    return { s with prev := after }
+    s ← runMonitor s "prn" none 0 [] [] [] after [scid]
+    return remember s after
   | "blk" :: rest =>
     let now := n rest "now"
     let after := parseDump ws
@@ -492,9 +675,10 @@ def step (s : St) (line : String) : IO St := do
       s ← mismatch s s!"blk relay: model={mRelay} impl={sv ws "relay"}"
     s ← compareGraph s acc.st.g after
     s ← runMonitor s "blk" none now relay (splitList (sv ws "wf") ",") (splitList (sv ws "wfs") ",") after
-    return { s with prev := after, replays := s.replays + acc.replayed.length }
+    let s2 := remember s after
+    return { s2 with replays := s.replays + acc.replayed.length }
   | kind :: rest =>
-    if kind != "ca" && kind != "cu" && kind != "na" && kind != "au" && kind != "ue" then
+    if kind != "ca" && kind != "cu" && kind != "na" && kind != "au" && kind != "ue" && kind != "ae" then
       if ws.isEmpty then return s else return ← mismatch s s!"unparsed line: {line.take 60}"
     let some m0 := parseMsg ws s.digs | mismatch s "bad message"
     let did := n rest "dig"
@@ -530,9 +714,18 @@ def step (s : St) (line : String) : IO St := do
       s := { s with sampled := s.sampled.filter (· != s.kind) ++ ["#" ++ s.kind] }
     -- (X) model
     let seenAll := cur :: s.seen
-    let direct := kind == "au" || kind == "ue"
+    let direct := kind == "au" || kind == "ue" || kind == "ae"
+    let gBefore := s.ms.g
     let (rname, acc) : String × Acc :=
       match direct, m with
+      | true, .ca a =>
+        if res == "e_edge" then ("e_edge", ⟨s.ms, [], []⟩)
+        else
+          let cap := match chainLookup s.ms.chain a.scid with
+            | .out _ v _ => v
+            | _ => 0
+          let (st, er) := addEdgeDirect s.ms a cap
+          (match er with | .ok => "ok" | .ignored => "e_ignored" | .outdated => "e_outdated", ⟨st, [], []⟩)
       | true, .cu u =>
         if kind == "au" then
           let (st, ok) := applyChannelUpdate s.ms u
@@ -553,11 +746,13 @@ def step (s : St) (line : String) : IO St := do
     if mRs != joinOrDash (sortStr (splitList (sv ws "rs") ",")) then
       s ← mismatch s s!"{kind} id={id}: replayed model={mRs} impl={sv ws "rs"}"
     s ← compareGraph s acc.st.g after
+    s ← concCheck s ws kind gBefore acc.st.g now after
     -- (S) monitor
     s ← runMonitor s kind (some cur) now relay (splitList (sv ws "wf") ",") (splitList (sv ws "wfs") ",") after
-    return { s with prev := after, seen := seenAll, resKinds := bump s.resKinds (kind ++ "_" ++ res),
-                    replays := s.replays + acc.replayed.length,
-                    pendings := s.pendings + (if res == "pending" then 1 else 0) }
+    let s2 := remember s after
+    return { s2 with seen := seenAll, resKinds := bump s.resKinds (kind ++ "_" ++ res),
+                     replays := s.replays + acc.replayed.length,
+                     pendings := s.pendings + (if res == "pending" then 1 else 0) }
   | [] => return s
 
 end LndModel.C20.Driver
@@ -568,7 +763,7 @@ def main : IO Unit := do
   IO.println s!"STAT lines={s.lines}"
   IO.println s!"STAT cases={s.cases}"
   IO.println s!"STAT evaluations={s.ops}"
-  IO.println s!"STAT nontrivial={s.chanAdds + s.polChanges + s.nodeChanges + s.rejectsInvalid + s.zombieLives}"
+  IO.println s!"STAT nontrivial={s.chanAdds + s.polChanges + s.nodeChanges + s.rejectsInvalid + s.zombieLives + s.concBarriers + s.zombiePruned + s.directAdds}"
   IO.println s!"STAT channels_added={s.chanAdds}"
   IO.println s!"STAT policies_changed={s.polChanges}"
   IO.println s!"STAT nodes_changed={s.nodeChanges}"
@@ -579,6 +774,12 @@ def main : IO Unit := do
   IO.println s!"STAT zombies_added={s.zombieAdds}"
   IO.println s!"STAT zombies_resurrected={s.zombieLives}"
   IO.println s!"STAT prunes={s.prunes}"
+  IO.println s!"STAT conc_overlapped_writes={s.concOps}"
+  IO.println s!"STAT conc_barriers_reached={s.concBarriers}"
+  IO.println s!"STAT cache_answers_checked={s.cacheAnswers}"
+  IO.println s!"STAT zombie_prune_ticks={s.zombiePrunes}"
+  IO.println s!"STAT zombie_pruned_channels={s.zombiePruned}"
+  IO.println s!"STAT direct_edge_adds={s.directAdds}"
   for (k, v) in s.resKinds do
     IO.println s!"STAT res_{k}={v}"
   IO.println s!"STAT mismatches={s.mismatches}"
